@@ -119,7 +119,13 @@ def run_py(cfg, hist, pr) -> Tuple[List[Any], List[int]]:
             m.write_bytes(op[2], op[1], op[3] & ((1 << (8 * op[2])) - 1))
             outs.append(None)
         else:
-            outs.append(m.read_bytes(op[1], op[2]))
+            v = m.read_bytes(op[1], op[2])
+            # the word/long helpers must agree with the generic multi-byte read: when one differs its value is reported
+            if op[2] == 2 and m.read_word(op[1]) != v:
+                v = m.read_word(op[1])
+            if op[2] == 3 and m.read_long(op[1]) != v:
+                v = m.read_long(op[1])
+            outs.append(v)
     return outs, [m.read_byte(p) for p in pr]
 
 
@@ -402,6 +408,32 @@ def _loads(args):
     return {"states": 0, "transitions": n, "vb": vb}
 
 
+def _loaders(args):
+    """The machine-level loader entry points of the Rust core (full 1 MiB system image, short system image, ROM window):
+    whichever is used, stores into the ROM window and the read-only low window change nothing, stores into RAM do."""
+    loader, length = args
+    h = rb.harness()
+    vb = VB()
+    n = 0
+    for addr, ro in ((0xC0000, True), (0xC0C00, True), (0xFFFFD, True), (0x00000, True), (0x01000, True), (0x3FFFE, True),
+                     (0xB8000, False), (0xBFFFD, False), (0x80000, False)):
+        for bits, val in ((8, 0x5A), (16, 0xA55A), (24, 0xC3A55A)):
+            r = h.call({"cmd": "sysimage", "loader": loader, "len": length,
+                        "script": [{"ld": [addr, bits]}, {"st": [addr, bits, val]}, {"ld": [addr, bits]}]})
+            n += 1
+            if "err" in r:
+                vb.add(f"C11/rust/loader/{loader}/error", f"{loader}({length:#x}) failed: {r['err']}", {"loader": loader, "len": length})
+                break
+            before, after = r["out"][0]["v"], r["out"][2]["v"]
+            if ro and after != before:
+                vb.add(f"C11/rust/loader/{loader}-{length:#x}/readonly-window-changed", f"rust memory set up by {loader} with a {length:#x}-byte image: "
+                       f"st{bits}({addr:#x},{val:#x}) changed what is read there from {before:#x} to {after:#x}", {"loader": loader, "len": length})
+            if not ro and after != val:
+                vb.add(f"C11/rust/loader/{loader}-{length:#x}/ram-write-lost", f"rust memory set up by {loader} with a {length:#x}-byte image: "
+                       f"st{bits}({addr:#x},{val:#x}) then load gives {after}", {"loader": loader, "len": length})
+    return {"n": n, "vb": vb}
+
+
 def run(ctx) -> None:
     rb.build()
     cfgs = configs(ctx.thorough)
@@ -418,7 +450,9 @@ def run(ctx) -> None:
     res = pmap(_shard, jobs)
     lres = pmap(_loads, [(impl, cs) for impl in ("python", "rust")
                          for cs in chunks([c for c in cfgs if (impl == "rust" and not c.get("rom_len") and c.get("card_writable", True) and not c.get("underlay")) or (impl == "python" and not (c.get("mirror") or c.get("readonly")))], 4)])
-    for r in res + lres:
+    ldres = pmap(_loaders, [("system_image", 0x100000), ("system_image", 0x40000), ("rom_window", 0x40000)])
+    ctx.coverage["loader_entry_point_accesses"] = sum(r["n"] for r in ldres)
+    for r in res + lres + ldres:
         ctx.merge_bucket(r["vb"])
     ctx.level = "model_checking"
     ctx.coverage.update({
@@ -444,6 +478,12 @@ def run(ctx) -> None:
 
 
 def replay(ctx, w) -> Optional[str]:
+    if "loader" in w:
+        rb.build()
+        r = _loaders((w["loader"], w["len"]))
+        for sig, (cnt, wl) in r["vb"].d.items():
+            return wl[0][0]
+        return None
     rb.build()
     cfg = {k: ([tuple(x) for x in v] if k in ("ram_overlays", "rom_overlays", "readonly") else (tuple(v) if k == "rom_image" else v))
            for k, v in w["cfg"].items()}
